@@ -85,6 +85,18 @@ Definition next (s : st) : option tok * st :=
   end.
 
 (* InputRef::skip, n times: like next without looking at the token; stays put at the end of input *)
+(* InputRef::skip_while(|t| t in ws): peeks; a matching token is consumed (the inspector sees it), the first non-matching
+   token is left alone; no error is recorded.  [k] bounds the number of steps (the input length suffices). *)
+Fixpoint skip_while (k : nat) (ws : list tok) (s : st) : st :=
+  match k with
+  | 0 => s
+  | S k' =>
+      match nth_error toks (cur s) with
+      | Some t => if memN t ws then skip_while k' ws (mkSt (S (cur s)) (sec s) (alt s) (on_tok t (ust s)) (memo s)) else s
+      | None => s
+      end
+  end.
+
 Fixpoint skip_loop (n : nat) (s : st) : st :=
   match n with 0 => s | S k => skip_loop k (snd (next s)) end.
 
@@ -189,7 +201,9 @@ Fixpoint group_loop (m : mode) (gs : list G) (ctx : env) (acc : list val) (s : s
 (* ---------- iterator protocol ---------- *)
 Inductive itst := SCount (n : nat) | SEnum (i : nat) (s : itst) | SFlag (b : bool)
                 | SCfg (n : nat) (lo : nat) (hi : option nat)
-                | SFail (k : nat).        (* try_configure: the closure returned Err(custom k) in make_iter *)
+                | SFail (k : nat)         (* try_configure: the closure returned Err(custom k) in make_iter *)
+                | SInto (o : option (list val)).   (* into_iter: None = make_iter not yet run (it is modelled at the first `next`:
+                                                      nothing happens between the two), Some l = the items not yet handed out *)
 Inductive ires := INone | ISome (v : option val) | IErr | IPanic (site : nat) | IOOF.
 
 Fixpoint mk_iter (i : IT) (ctx : env) : itst :=
@@ -203,17 +217,26 @@ Fixpoint mk_iter (i : IT) (ctx : env) : itst :=
   | IRepCfg _ lo hi ck =>
       if cfg_fails ck (val_count (cval ctx)) then SFail lo
       else SCfg 0 (cfg_lo ck lo (val_count (cval ctx))) (cfg_hi ck hi (val_count (cval ctx)))
+  | IIntoIter _ => SInto None
   end.
 
-(* make_iter failed (try_configure): the error code *)
-Fixpoint its_fail (its : itst) : option nat :=
-  match its with SFail k => Some k | SEnum _ js => its_fail js | _ => None end.
+(* What make_iter does before any item is asked for, when it does anything: a try_configure whose closure fails records
+   its error and fails; into_iter runs its inner parser (whose output is the container).  The machine defers both to the
+   first `next`; only collect_exactly::<[T; 0]> never calls `next`, and takes this instead. *)
+Fixpoint it_eager (i : IT) (ctx : env) : option G :=
+  match i with
+  | IRepCfg _ lo _ ck => if cfg_fails ck (val_count (cval ctx)) then Some (TryMap PFalse FId lo Empty) else None
+  | IEnum j | IMap _ j | IMapWith _ j => it_eager j ctx
+  | IIntoIter a => Some (IgnoreThen a (Group []))       (* the parser runs, its output is discarded, the result is [] *)
+  | _ => None
+  end.
 
 Fixpoint noncons_ok (i : IT) : bool :=
   match i with
   | IRep _ _ _ | ISep _ _ _ _ _ _ | IRepCfg _ _ _ _ => false
   | IEnum j | IMap _ j | IMapWith _ j => noncons_ok j
   | IOrNot _ => true
+  | IIntoIter _ => true
   end.
 
 Definition at_cap (c : nat) (hi : option nat) : bool :=
@@ -311,6 +334,23 @@ Fixpoint it_next (m : mode) (i : IT) (ctx : env) (its : itst) (s : st) : ires * 
       | (Err, s1) => (INone, SFlag true, rewind s1 before)
       | (Panic k, s1) => (IPanic k, its, s1)
       | (OutOfFuel, s1) => (IOOF, its, s1)
+      end
+  | IIntoIter a, SInto None =>
+      (* IntoIter::make_iter: the inner parser always runs in Emit mode (its output is needed for the items) *)
+      match run Emit a ctx s with
+      | (Ok v, s1) =>
+          match val_items (getv v) with
+          | [] => (INone, SInto (Some []), s1)
+          | x :: l => (ISome (bindv m x), SInto (Some l), s1)
+          end
+      | (Err, s1) => (IErr, its, s1)
+      | (Panic k, s1) => (IPanic k, its, s1)
+      | (OutOfFuel, s1) => (IOOF, its, s1)
+      end
+  | IIntoIter _, SInto (Some l) =>
+      match l with
+      | [] => (INone, its, s)
+      | x :: l' => (ISome (bindv m x), SInto (Some l'), s)
       end
   | _, _ => (IPanic 99, its, s)       (* ill-typed iterator state: unreachable from mk_iter *)
   end.
@@ -732,10 +772,11 @@ Fixpoint go (n : nat) (m : mode) (g : G) (ctx : env) (s : st) {struct n} : outco
       | (res, _, _, s1) => (res, s1)
       end
   | CollectExactly k i =>
-      match k, its_fail (mk_iter i ctx) with
-      | 0, Some e =>
-          (* make_iter itself fails (try_configure); with N = 0 no `next` is ever called, so the failure has to be taken here *)
-          run m (TryMap PFalse FId e Empty) ctx s
+      match k, it_eager i ctx with
+      | 0, Some g =>
+          (* make_iter's own work (a failing try_configure, into_iter's inner parser); with N = 0 no `next` is ever called,
+             so it has to be taken here *)
+          run m g ctx s
       | _, _ =>
       match drive run (S k) m i ctx (mk_iter i ctx) (Some k) (fun _ => false) 0 [] s with
       | (Ok _, acc, false, s1) => (Ok (bindv m (VList (rev (map item_val acc)))), s1)
@@ -943,6 +984,12 @@ Fixpoint go (n : nat) (m : mode) (g : G) (ctx : env) (s : st) {struct n} : outco
           | None => (Panic PUnwrapInputRef, s1)
           | Some (_, e) => (Err, alt_err (set_alt s1 None) (cur s) e)
           end
+      | res => res
+      end
+  | Padded ws a =>
+      (* text.rs Padded::go: skip_while, the parser in the current mode, skip_while; a failure leaves everything as it is *)
+      match run m a ctx (skip_while (length toks) ws s) with
+      | (Ok v, s1) => (Ok v, skip_while (length toks) ws s1)
       | res => res
       end
   | NestedIn a =>
